@@ -4,6 +4,7 @@ package main
 // verification conditions into an incremental solver session and a solver race.
 
 import (
+	"sync/atomic"
 	"fmt"
 	"go/constant"
 	"go/token"
@@ -39,7 +40,17 @@ type Oblig struct {
 	Clause    string           `json:"clause,omitempty"`
 	Expect    string           `json:"expect,omitempty"` // "" (must hold) | "fail" (known-region)
 	Instances []*ObligInstance `json:"instances"`
+	nRefuted  int32
+	nUnknown  int32
 }
+
+// refuted: number of instances of the obligation for which a solver produced a counterexample.
+func (o *Oblig) refuted() int   { return int(atomic.LoadInt32(&o.nRefuted)) }
+func (o *Oblig) addRefuted()    { atomic.AddInt32(&o.nRefuted, 1) }
+
+// obligGate bounds the number of obligation instances whose solver race runs at the same time, so
+// that later instances of an obligation see the counterexamples found for earlier ones.
+var obligGate = make(chan struct{}, 5)
 
 type Tier struct {
 	Name     string
@@ -154,6 +165,13 @@ func (x *Exec) prove1(st *State, name, kind, clause string, goal Term, where, ex
 		inst.Result, inst.Solver = "discharged", "syntactic"
 		return
 	}
+	if expect == "" && o.refuted() >= 2 {
+		// two paths already have a counterexample for this obligation: it is reported as failed
+		// anyway, further instances would only cost solver time (a clause that fails fails on
+		// hundreds of return paths of a large function)
+		inst.Result, inst.Solver = "skipped", "not asked: the obligation already has counterexamples on other paths"
+		return
+	}
 	t0 := time.Now()
 	x.sess.Push()
 	x.sess.Assert(tNot(goal))
@@ -172,6 +190,9 @@ func (x *Exec) prove1(st *State, name, kind, clause string, goal Term, where, ex
 	if r == "unsat" {
 		inst.Result, inst.Solver = "discharged", "z3-5.1.0(incremental)"
 		return
+	}
+	if r == "sat" {
+		o.addRefuted()
 	}
 	for _, ev := range st.events {
 		if ev.Callee == "(*stage.Stage).logDebug" || strings.HasPrefix(ev.Callee, "log.") || strings.HasPrefix(ev.Callee, "fmt.") {
@@ -199,7 +220,18 @@ func (x *Exec) prove1(st *State, name, kind, clause string, goal Term, where, ex
 	x.wg.Add(1)
 	go func() {
 		defer x.wg.Done()
+		obligGate <- struct{}{}
+		defer func() { <-obligGate }()
+		if expect == "" && (o.refuted() >= 2 || atomic.LoadInt32(&o.nUnknown) >= 3) {
+			inst.Result, inst.Solver = "skipped", "not asked: the obligation already failed on other paths"
+			return
+		}
 		w, answers := race(file, raceMs, x.tier.Seed, x.tier.AllSolv)
+		if w.Result == "sat" {
+			o.addRefuted()
+		} else if w.Result != "unsat" && r != "sat" {
+			atomic.AddInt32(&o.nUnknown, 1)
+		}
 		inst.Answers = answers
 		inst.Ms += w.Ms
 		switch w.Result {
